@@ -24,6 +24,8 @@ type c17Case struct {
 	End   string   `json:"end"`
 	Excl  bool     `json:"excl"`
 	Items []string `json:"items"` // jsonl: the raw lines
+	Kind  string   `json:"kind,omitempty"`  // "" (index) | n | at (`@[`) | s | r
+	Flags string   `json:"flags,omitempty"` // any of ! 8 b t
 }
 
 type c17Obs struct {
@@ -76,8 +78,19 @@ func (c17) Run(raw json.RawMessage) Result {
 	for _, p := range []string{c.Start, c.End} {
 		for i := 0; i < len(p); i++ {
 			ch := p[i]
-			if !(ch >= '0' && ch <= '9' || ch >= 'a' && ch <= 'z' || ch == '-' || ch == '+') {
+			if !(ch >= '0' && ch <= '9' || ch >= 'a' && ch <= 'z' || ch == '-' || ch == '+' || ch == '^' || ch == '$') {
 				die("C17: parameter %q outside the harness alphabet", p)
+			}
+		}
+	}
+	for _, p := range []string{c.Start, c.End} {
+		if c.Kind != "s" && c.Kind != "r" {
+			continue
+		}
+		for i := 0; i < len(p); i++ {
+			ch := p[i]
+			if !(ch >= '0' && ch <= '9' || ch >= 'a' && ch <= 'z' || ch == '^' || ch == '$') {
+				die("C17: bound %q outside the harness alphabet for s / r", p)
 			}
 		}
 	}
@@ -85,7 +98,33 @@ func (c17) Run(raw json.RawMessage) Result {
 	if c.Excl {
 		flags = "e"
 	}
-	block := "tout " + c.Fmt + " '" + text + "' -> [" + c.Start + ".." + c.End + "]" + flags
+	for _, f := range []string{"8", "b", "t"} {
+		if strings.Contains(c.Flags, f) {
+			flags += f
+		}
+	}
+	switch c.Kind {
+	case "n", "s", "r":
+		flags += c.Kind
+	}
+	q := func(p string) string {
+		if strings.ContainsAny(p, "^$") {
+			return "'" + p + "'"
+		}
+		return p
+	}
+	open := "["
+	switch {
+	case strings.Contains(c.Flags, "!"):
+		open = "![ "
+	case c.Kind == "at":
+		open = "@["
+	}
+	closeb := "]"
+	if open == "![ " {
+		closeb = " ]"
+	}
+	block := "tout " + c.Fmt + " '" + text + "' -> " + open + q(c.Start) + ".." + q(c.End) + closeb + flags
 	r := RunMurex(block, 20*time.Second)
 
 	o := c17Obs{Exit: r.ExitNum, Items: []string{}}
@@ -125,8 +164,14 @@ func (c17) Run(raw json.RawMessage) Result {
 	if fm == "" {
 		die("C17: bad fmt %q", c.Fmt)
 	}
+	kind := map[string]string{"": "KIndex", "n": "KNumber", "at": "KNumber", "s": "KString", "r": "KRegexp"}[c.Kind]
+	if kind == "" {
+		die("C17: bad kind %q", c.Kind)
+	}
+	fl := coqlit.Record("f_not", coqlit.Bool(strings.Contains(c.Flags, "!")), "f_rmbs", coqlit.Bool(strings.Contains(c.Flags, "8")),
+		"f_blank", coqlit.Bool(strings.Contains(c.Flags, "b")), "f_trim", coqlit.Bool(strings.Contains(c.Flags, "t")))
 	coq := coqlit.Record(
-		"c_fmt", fm, "c_start", coqlit.Bytes(c.Start), "c_end", coqlit.Bytes(c.End),
+		"c_fmt", fm, "c_kind", kind, "c_flags", fl, "c_start", coqlit.Bytes(c.Start), "c_end", coqlit.Bytes(c.End),
 		"c_excl", coqlit.Bool(c.Excl), "c_items", coqlit.BytesList(c.Items),
 		"c_obs", coqlit.Record("o_class", coqlit.N(uint64(o.Class)), "o_items", coqlit.BytesList(o.Items)))
 
@@ -145,6 +190,9 @@ func (c17) Run(raw json.RawMessage) Result {
 	}
 	if c.Excl {
 		form += "/e"
+	}
+	if c.Kind != "" || c.Flags != "" {
+		form += "/" + c.Kind + c.Flags
 	}
 	return Result{Obs: o, Coq: coq, Nontrivial: len(c.Items) > 0, Class: c.Fmt + "/" + form}
 }
@@ -214,18 +262,18 @@ func (c17) Gen(seed int64, tier string, emit func(any)) {
 		for _, excl := range []bool{false, true} {
 			for _, v := range all {
 				f := fmts[(n+v+10)%3]
-				emit(c17Case{f, itoa(v), "", excl, c17Items(f, n, n+v+10)})
+				emit(c17Mk(f, itoa(v), "", excl, c17Items(f, n, n+v+10), "", ""))
 				f = fmts[(n+v+11)%3]
-				emit(c17Case{f, "", itoa(v), excl, c17Items(f, n, n+v+11)})
+				emit(c17Mk(f, "", itoa(v), excl, c17Items(f, n, n+v+11), "", ""))
 				if thorough && n%2 == 0 {
 					for _, g := range fmts {
-						emit(c17Case{g, itoa(v), "", excl, c17Items(g, n, 0)})
-						emit(c17Case{g, "", itoa(v), excl, c17Items(g, n, 0)})
+						emit(c17Mk(g, itoa(v), "", excl, c17Items(g, n, 0), "", ""))
+						emit(c17Mk(g, "", itoa(v), excl, c17Items(g, n, 0), "", ""))
 					}
 				}
 			}
 			f := fmts[n%3]
-			emit(c17Case{f, "", "", excl, c17Items(f, n, 0)})
+			emit(c17Mk(f, "", "", excl, c17Items(f, n, 0), "", ""))
 		}
 	}
 
@@ -253,7 +301,7 @@ func (c17) Gen(seed int64, tier string, emit func(any)) {
 					if !thorough {
 						f = fmts[(n+s+e+20)%3]
 					}
-					emit(c17Case{f, itoa(s), itoa(e), excl, c17Items(f, n, s+e+20)})
+					emit(c17Mk(f, itoa(s), itoa(e), excl, c17Items(f, n, s+e+20), "", ""))
 				}
 			}
 		}
@@ -261,20 +309,23 @@ func (c17) Gen(seed int64, tier string, emit func(any)) {
 			for _, s := range c17Bounds(n) {
 				for _, e := range c17Bounds(n) {
 					for _, excl := range []bool{false, true} {
-						emit(c17Case{"json", itoa(s), itoa(e), excl, c17Items("json", n, s+e+20)})
-						emit(c17Case{"jsonl", itoa(s), itoa(e), excl, c17Items("jsonl", n, s+e+20)})
+						emit(c17Mk("json", itoa(s), itoa(e), excl, c17Items("json", n, s+e+20), "", ""))
+						emit(c17Mk("jsonl", itoa(s), itoa(e), excl, c17Items("jsonl", n, s+e+20), "", ""))
 					}
 				}
 			}
 		}
 	}
 
+	// 2b. the other matchers, the inverse form and the trimming flags
+	c17Variants(tier, emit)
+
 	// 3. malformed bounds
 	for _, b := range c17Bad {
 		for _, f := range fmts {
-			emit(c17Case{f, b, "3", false, c17Items(f, 4, 0)})
-			emit(c17Case{f, "2", b, false, c17Items(f, 4, 0)})
-			emit(c17Case{f, b, "", true, c17Items(f, 4, 0)})
+			emit(c17Mk(f, b, "3", false, c17Items(f, 4, 0), "", ""))
+			emit(c17Mk(f, "2", b, false, c17Items(f, 4, 0), "", ""))
+			emit(c17Mk(f, b, "", true, c17Items(f, 4, 0), "", ""))
 		}
 	}
 
@@ -306,7 +357,7 @@ func (c17) Gen(seed int64, tier string, emit func(any)) {
 			n = 31 + r.Intn(200)
 		}
 		f := fmts[r.Intn(3)]
-		emit(c17Case{f, pick(n), pick(n), r.Intn(3) == 0, c17Items(f, n, r.Intn(6))})
+		emit(c17Mk(f, pick(n), pick(n), r.Intn(3) == 0, c17Items(f, n, r.Intn(6)), "", ""))
 	}
 }
 
@@ -322,4 +373,136 @@ func (c17) Shrink(raw json.RawMessage) []any {
 		out = append(out, d)
 	}
 	return out
+}
+
+func c17Mk(f, start, end string, excl bool, items []string, kind, flags string) c17Case {
+	return c17Case{Fmt: f, Start: start, End: end, Excl: excl, Items: items, Kind: kind, Flags: flags}
+}
+
+// items for the s / r matchers: tokens without spaces; some repeat so that
+// "first match" matters
+func c17Tokens(n, variant int) []string {
+	it := make([]string, 0, n)
+	for i := 1; i <= n; i++ {
+		switch {
+		case variant%3 == 1 && i%4 == 0:
+			it = append(it, "i2") // repeats
+		case variant%3 == 2 && i%5 == 0:
+			it = append(it, fmt.Sprintf("x%di", i))
+		default:
+			it = append(it, fmt.Sprintf("i%d", i))
+		}
+	}
+	return it
+}
+
+// items with blanks, surrounding spaces and backspaces for the 8 / b / t flags
+func c17Messy(f string, n, variant int) []string {
+	it := make([]string, 0, n)
+	for i := 1; i <= n; i++ {
+		switch (i + variant) % 5 {
+		case 0:
+			it = append(it, "")
+		case 1:
+			if f == "json" {
+				it = append(it, fmt.Sprintf("  m%d ", i))
+			} else {
+				it = append(it, fmt.Sprintf("m%d", i))
+			}
+		case 2:
+			it = append(it, fmt.Sprintf("ab\bc%d", i))
+		case 3:
+			if f == "json" {
+				it = append(it, " ")
+			} else {
+				it = append(it, fmt.Sprintf("\bq%d\b\b", i))
+			}
+		default:
+			it = append(it, fmt.Sprintf("k%d", i))
+		}
+	}
+	return it
+}
+
+func c17Variants(tier string, emit func(any)) {
+	thorough := tier == "thorough"
+	itoa := strconv.Itoa
+	fm := []string{"str", "json"}
+	lens := []int{0, 1, 2, 3, 5, 9}
+	if thorough {
+		lens = []int{0, 1, 2, 3, 5, 9}
+	}
+	for _, n := range lens {
+		bs := []int{-3, -1, 0, 1, 2, n - 1, n, n + 1}
+		if thorough {
+			bs = c17Bounds(n)
+		}
+		opt := func(v int, present bool) string {
+			if !present {
+				return ""
+			}
+			return itoa(v)
+		}
+		for _, s := range bs {
+			for _, e := range bs {
+				for form := 0; form < 3; form++ { // s..e, s.., ..e
+					st, en := opt(s, form != 2), opt(e, form != 1)
+					if form != 0 && s != e {
+						continue
+					}
+					for _, excl := range []bool{false, true} {
+						f := fm[(n+s+e+20)%2]
+						items := c17Items(f, n, s+e+20)
+						// number matcher, both spellings
+						emit(c17Mk(f, st, en, excl, items, "n", ""))
+						if !excl {
+							emit(c17Mk(f, st, en, false, items, "at", ""))
+						}
+						// inverse of the index matcher
+						emit(c17Mk(f, st, en, excl, items, "", "!"))
+						if thorough {
+							emit(c17Mk(f, st, en, excl, items, "n", "!"))
+						}
+						// trimming flags with the index matcher
+						for _, fl := range []string{"b", "8", "t", "bt8"} {
+							if !thorough && (s+e+n+len(fl)+40)%2 == 0 {
+								continue
+							}
+							g := fm[(n+s+len(fl)+40)%2]
+							emit(c17Mk(g, st, en, excl, c17Messy(g, n, s+e+20), "", fl))
+						}
+					}
+				}
+			}
+		}
+		// string and regexp matchers
+		toks := []string{"", "i1", "i2", "i3", "i" + itoa(n), "zz", "x5i"}
+		for v := 0; v < 3; v++ {
+			items := c17Tokens(n, v)
+			for _, s := range toks {
+				for _, e := range toks {
+					for _, excl := range []bool{false, true} {
+						if !thorough && (len(s)+len(e)+v+n)%2 == 0 && s != "" && e != "" {
+							continue
+						}
+						f := fm[(n+v+len(s))%2]
+						emit(c17Mk(f, s, e, excl, items, "s", ""))
+						if thorough || excl {
+							emit(c17Mk(f, s, e, excl, items, "s", "!"))
+						}
+					}
+				}
+			}
+			rx := []string{"", "i1", "^i2", "2$", "^i3$", "x", "5i$", "^zz"}
+			for _, s := range rx {
+				for _, e := range rx {
+					if !thorough && (len(s)*3+len(e)+v+n)%3 != 0 {
+						continue
+					}
+					f := fm[(n+v+len(e))%2]
+					emit(c17Mk(f, s, e, (len(s)+len(e))%2 == 0, items, "r", ""))
+				}
+			}
+		}
+	}
 }
